@@ -11,7 +11,7 @@ CONSTANTS W = 8
  Exps = {1, 4, 7}
  Msizes = {2, 8}
  Tags = {1, 2}
- MaxOps = 3
+ MaxOps = 2
  AlgMutant = "none"
 VIEW View
 INVARIANT WellFormed
